@@ -222,11 +222,16 @@ static void mode_ensemble() {
         Spec s; s.kind = K_FP;
         s.n = (uint32_t)r.range(64, 160); s.nb = 1;
         if (r.chance(0.7)) { s.shiftx = r.uni(-3, 3); s.shifty = r.uni(-3, 3); }
+        // every other case: damping/diffusion alone on a small grid - the ensemble must settle on the zero-energy bin itself,
+        // whatever its fractional part (without the rotation nothing hides an offset of the damping centre)
+        const bool fp_only = (c % 2 == 1);
+        if (fp_only) { s.n = (uint32_t)r.range(16, 32) * 2; if (r.chance(0.5)) { s.shiftx = 0; s.shifty = 0; } }
         uint32_t steps = (uint32_t)r.range(50, 200);
         double a = 6.283185307179586 / steps;
         s.e1 = r.logu(1e-3, 1e-2); s.fptype = 3; s.deriv = 4;
         const int N = 20000;
-        M.begin_case(c, "ensemble " + s.descr() + " steps=" + std::to_string(steps));
+        M.begin_case(c, std::string(fp_only ? "ensemble(fp only) " : "ensemble ") + s.descr() + " steps=" + std::to_string(steps));
+        if (fp_only) M.ev("ensembles_under_fp_alone");
         vh::set_grid(s.n, 1);
         auto fill = filling_for(1);
         auto A = grid_for(s, fill), B = grid_for(s, fill);
@@ -242,7 +247,8 @@ static void mode_ensemble() {
         if (nst > 12000) nst = 12000;
         bool bad = false;
         for (long st = 0; st < nst && !bad; st++) {
-            for (auto& p : ps) { rf.applyTo(p); dr.applyTo(p); fpm.applyTo(p); }
+            if (fp_only) for (auto& p : ps) fpm.applyTo(p);
+            else for (auto& p : ps) { rf.applyTo(p); dr.applyTo(p); fpm.applyTo(p); }
             if (st % 50 == 49 || st + 1 == nst) {
                 double mx = 0, my = 0, vx = 0, vy = 0; bool inside = true;
                 for (auto& p : ps) { mx += p.x; my += p.y; if (!finite_inside(p, s.n)) inside = false; }
@@ -251,7 +257,7 @@ static void mode_ensemble() {
                 double sx = std::sqrt(vx / N) * d, sy = std::sqrt(vy / N) * d;
                 double dmx = (mx - xc) * d, dmy = (my - yc) * d;   // in units of sigma
                 M.ev("ensemble_snapshots");
-                double tm = 6.0 / std::sqrt((double)N), tw = 6.0 / std::sqrt(2.0 * N) + s.e1 + 0.5 * a;   // statistics + OU discretisation + tilt of the kick-drift invariant ellipse
+                double tm = 6.0 / std::sqrt((double)N), tw = 6.0 / std::sqrt(2.0 * N) + s.e1 + (fp_only ? 0.0 : 0.5 * a);   // statistics + OU discretisation + tilt of the kick-drift invariant ellipse
                 bool okm = M.within("ensemble_mean_over_tol", std::max(std::fabs(dmx), std::fabs(dmy)) / tm, 1.0);
                 bool okw = M.within("ensemble_width_dev_over_tol", std::max(std::fabs(sx - 1), std::fabs(sy - 1)) / tw, 1.0);
                 if (!inside) {
